@@ -3,6 +3,7 @@
 from __future__ import annotations
 
 import builtins
+import json
 import importlib
 import os
 import random
@@ -14,7 +15,7 @@ BUDGET = {"quick": 55, "thorough": 900}
 QUICK_CASES = 1500
 FLOOR = {"quick": 500, "thorough": 5000}
 TIMEOUT = 120
-REQUIRED_OBS = ["programs", "files", "import_edges", "cross_context_calls", "raising_cross_calls", "callbacks_into_caller_file", "entries_run", "entries_via_trigger", "entries_via_service", "entries_via_task", "global_tables_compared", "module_singleton_checks", "jupyter_contexts", "star_imports", "relative_imports"]
+REQUIRED_OBS = ["programs", "files", "import_edges", "cross_context_calls", "raising_cross_calls", "callbacks_into_caller_file", "entries_run", "entries_via_trigger", "entries_via_service", "entries_via_task", "global_tables_compared", "module_singleton_checks", "jupyter_contexts", "star_imports", "relative_imports", "sibling_relative_imports", "scoped_functions", "scoped_calls", "expression_triggers", "foreign_decorated_triggers", "expression_trigger_runs"]
 RULE = (
     "generated sets of 3-7 files (top-level scripts, scripts/, a single-file app, an app package with a sibling, modules, a module "
     "package with a sibling, and a Jupyter-style session context) that all define the same global names (NAME, X, L, R, get, bump, apply, "
@@ -56,13 +57,15 @@ FILES = {
     "ap1": ("apps/ap1.py", "ap1", "apps.ap1"),
     "ap2": ("apps/ap2/__init__.py", "ap2", "apps.ap2"),
     "ap2u": ("apps/ap2/util.py", "ap2.util", "apps.ap2.util"),
+    "ap2o": ("apps/ap2/other.py", "ap2.other", "apps.ap2.other"),
     "mo1": ("modules/mo1.py", "mo1", "modules.mo1"),
     "mo2": ("modules/mo2.py", "mo2", "modules.mo2"),
     "pk": ("modules/pk/__init__.py", "pk", "modules.pk"),
     "pks": ("modules/pk/sub.py", "pk.sub", "modules.pk.sub"),
+    "pko": ("modules/pk/other.py", "pk.other", "modules.pk.other"),
     "jup": (None, "jupyter_0", "jupyter_0"),
 }
-MODULE_IDS = ["mo2", "mo1", "pks", "pk"]  # import order constraint: a module may import those to its left
+MODULE_IDS = ["mo2", "mo1", "pko", "pks", "pk"]  # import order constraint: a module may import those to its left
 LOADERS = ["ap1", "ap2", "fa", "fb", "sc"]  # pyscript's load order (sorted context names)
 
 TEMPLATE = '''
@@ -109,19 +112,26 @@ class C:
         return (NAME, self.tag, self.v, X)
 
 lam = lambda d: (NAME, X + d)
+
+def deco(fn):
+    def wrapper(*args, **kwargs):
+        L.append("deco")
+        return fn(*args, **kwargs)
+
+    return wrapper
 '''
 
 
 class ProgGen:
     def __init__(self, rng):
         self.r = rng
-        self.stats = {"import_edges": 0, "cross_context_calls": 0, "raising_cross_calls": 0, "callbacks_into_caller_file": 0, "star_imports": 0, "relative_imports": 0}
+        self.stats = {"import_edges": 0, "cross_context_calls": 0, "raising_cross_calls": 0, "callbacks_into_caller_file": 0, "star_imports": 0, "relative_imports": 0, "sibling_relative_imports": 0, "scoped_functions": 0, "scoped_calls": 0, "expression_triggers": 0, "foreign_decorated_triggers": 0}
 
     def pick_files(self):
         r = self.r
         mods = [m for m in ("mo1", "mo2") if r.random() < 0.8]
         if r.random() < 0.5:
-            mods += ["pk", "pks"]
+            mods += ["pk", "pks"] + (["pko"] if r.random() < 0.6 else [])
         if not mods:
             mods = ["mo1"]
         loaders = [f for f in LOADERS if r.random() < 0.45]
@@ -129,6 +139,8 @@ class ProgGen:
             loaders = [r.choice(LOADERS)]
         if "ap2" in loaders:
             loaders.append("ap2u")
+            if r.random() < 0.6:
+                loaders.append("ap2o")
         jup = ["jup"] if r.random() < 0.3 else []
         return mods, loaders, jup
 
@@ -137,6 +149,8 @@ class ProgGen:
         mods, loaders, jup = self.pick_files()
         self.present = mods + loaders + jup
         self.entries = {}
+        self.scoped = {}
+        self.exprtrig = {}
         self.env = {}  # file id -> {"mods": {alias: fid}, "fns": {alias: (fid, fname)}, "star": [fid]}
         src = {}
         for fid in self.present:
@@ -148,10 +162,10 @@ class ProgGen:
             allowed = MODULE_IDS[: MODULE_IDS.index(fid)]
             if fid == "pk":
                 allowed = ["mo2", "mo1"]  # .sub comes through the relative import
-            if fid == "pks":
+            if fid in ("pks", "pko"):
                 allowed = ["mo2", "mo1"]
             return [m for m in allowed if m in mods]
-        return [m for m in mods if m != "pks"]
+        return [m for m in mods if m not in ("pks", "pko")]
 
     def file_source(self, fid, mods):
         r = self.r
@@ -172,6 +186,19 @@ class ProgGen:
                 env["fns"]["bump_sub"] = ("pks", "bump")
             self.stats["relative_imports"] += 1
             self.stats["import_edges"] += 1
+        # a sibling module of a package imported relatively from the package and from another sibling: one instance
+        for me, sib, alias in (("pk", "pko", "other"), ("pks", "pko", "other"), ("ap2", "ap2o", "other"), ("ap2u", "ap2o", "other")):
+            if fid == me and sib in self.present and r.random() < (0.5 if me in ("pk", "ap2") else 0.8):
+                if r.random() < 0.5:
+                    place("from . import other as sib_other")
+                    env["mods"]["sib_other"] = sib
+                else:
+                    place("from .other import get as get_other, bump as bump_other")
+                    env["fns"]["get_other"] = (sib, "get")
+                    env["fns"]["bump_other"] = (sib, "bump")
+                self.stats["relative_imports"] += 1
+                self.stats["sibling_relative_imports"] += 1
+                self.stats["import_edges"] += 1
         if fid == "ap2":
             if r.random() < 0.5:
                 place("from . import util")
@@ -195,11 +222,12 @@ class ProgGen:
                 place(f"import {pyname} as z_{m}")
                 env["mods"][f"z_{m}"] = m
             elif k < 0.75:
-                names = r.sample(["get", "bump", "apply", "safe", "boom", "lam", "make", "C"], r.randint(1, 4))
+                names = r.sample(["get", "bump", "apply", "safe", "boom", "lam", "make", "C", "deco"], r.randint(1, 4))
                 place(f"from {pyname} import " + ", ".join(f"{n} as {n}_{m}" for n in names))
                 for n in names:
                     env["fns"][f"{n}_{m}"] = (m, n)
-            elif k < 0.9:
+            elif k < 0.9 and m in ("mo1", "mo2"):
+                # (a package is not star-imported: CPython also copies the package's implicit submodule attributes)
                 place(f"from {pyname} import *")
                 env["star"].append(m)
                 self.stats["star_imports"] += 1
@@ -210,18 +238,27 @@ class ProgGen:
                 else:
                     place(f"import {pyname}")
                     env["mods"][pyname] = m
-        base = {"fa": 10, "fb": 20, "sc": 30, "ap1": 40, "ap2": 50, "ap2u": 60, "mo1": 100, "mo2": 200, "pk": 300, "pks": 400, "jup": 500}[fid]
-        lines = ["vf.rec('load', name=__name__)"]
+        base = {"fa": 10, "fb": 20, "sc": 30, "ap1": 40, "ap2": 50, "ap2u": 60, "mo1": 100, "mo2": 200, "pk": 300, "pks": 400, "jup": 500, "ap2o": 70, "pko": 450}[fid]
+        lines = [f"vf.rec('load', name=__name__, file={fid!r})"]
         lines += imps["top"]
-        lines += [f"NAME = {fid!r}", f"X = {base}", "L = []", "R = []", f"ONLY_{fid} = {base + 1}"]
+        lines += [f"NAME = {fid!r}", f"X = {base}", f"LIMIT = {base}", "L = []", "R = []", f"ONLY_{fid} = {base + 1}"]
         lines += imps["mid"]
         lines.append(TEMPLATE)
         lines += imps["bottom"]
+        # functions with locals that shadow the global names and a nested function (a foreign callee must not see them)
+        self.scoped[fid] = 0
+        for j in range(r.choice([0, 0, 1, 2])):
+            body = []
+            for _ in range(r.randint(1, 3)):
+                body += [l.replace("R.append(", "out.append(") for l in self.statement(fid, "    ")]
+            lines += ["", f"def scoped_{j}(d):", f"    NAME = 'loc-{fid}'", "    X = -5 - d", "    L = ['loc']", "    k = 'caller-k'", "", "    def helper():", "        return (NAME, X, k)", "", "    out = [helper()]"] + body + ["    out.append((NAME, X, L))", "    return out"]
+            self.scoped[fid] += 1
+            self.stats["scoped_functions"] += 1
         # top-level statements
         for _ in range(r.randint(0, 5)):
             lines += self.statement(fid, "")
         # entries
-        n_entries = r.randint(1, 3) if fid not in ("ap2u", "pks") else r.randint(0, 1)
+        n_entries = r.randint(1, 3) if fid not in ("ap2u", "pks", "ap2o", "pko") else r.randint(0, 1)
         self.entries[fid] = []
         for i in range(n_entries):
             kind = r.choice(["trigger", "service", "task"]) if fid != "jup" else "direct"
@@ -236,6 +273,14 @@ class ProgGen:
             elif kind == "task":
                 lines += ["", f"def body_{i}():", f"    vf.rec('entry', who={fid + str(i)!r}, res=entry_{i}())", "", f"@event_trigger('go_{fid}_{i}')", f"def trig_{i}(**kw):", f"    task.create(body_{i})"]
             self.entries[fid].append(kind)
+        if fid in LOADERS and r.random() < 0.6:
+            decos = [None, "deco"] + [f"{a}.deco" for a in env["mods"]] + [a for a, (m, n) in env["fns"].items() if n == "deco"]
+            d1, d2 = r.choice(decos), r.choice(decos)
+            lines += ["", "@state_trigger('int(pyscript.c11v) > LIMIT')"] + ([f"@{d1}"] if d1 else []) + ["def st_trig(**kw):", f"    vf.rec('exprtrig', who={fid!r}, kind='st', seen=[NAME, X, LIMIT])"]
+            lines += ["", "@event_trigger('c11ev', 'lim > LIMIT')"] + ([f"@{d2}"] if d2 else []) + ["def ev_trig(**kw):", f"    vf.rec('exprtrig', who={fid!r}, kind='ev', seen=[NAME, X, LIMIT])"]
+            self.exprtrig[fid] = True
+            self.stats["expression_triggers"] += 2
+            self.stats["foreign_decorated_triggers"] += sum(1 for d in (d1, d2) if d and d != "deco")
         return "\n".join(lines) + "\n"
 
     # --- expressions -------------------------------------------------------
@@ -280,6 +325,15 @@ class ProgGen:
         env = self.env[fid]
         k = r.random()
         mods = list(env["mods"])
+        cands = [(f"scoped_{j}", fid) for j in range(self.scoped.get(fid, 0))]
+        for alias, m in env["mods"].items():
+            cands += [(f"{alias}.scoped_{j}", m) for j in range(self.scoped.get(m, 0))]
+        if cands and r.random() < 0.15:
+            ref, owner = r.choice(cands)
+            if owner != fid:
+                self.stats["cross_context_calls"] += 1
+            self.stats["scoped_calls"] += 1
+            return [f"{ind}R.append({ref}({r.randint(1, 9)}))"]
         if k < 0.45:
             ref, args, raises = self.call_spec(fid, r.choice([0, 1, 1, 2, 2, 3]), True)
             call = f"{ref}({', '.join(args)})"
@@ -340,14 +394,14 @@ def _ident_deco(*a, **k):
     return deco
 
 
-def run_cpython(root, src, order, plan):
+def run_cpython(root, src, order, plan, exprtrig=()):
     """Import the files as ordinary modules; returns (dumps, loads, entries, error)."""
     from ..interp import canon, canon_globals
 
     recs = []
     saved_path = list(sys.path)
     saved_mods = set(sys.modules)
-    shim = {"vf": _Shim(recs), "event_trigger": _ident_deco, "service": _ident_deco, "task": None, "pyscript": None}
+    shim = {"vf": _Shim(recs), "event_trigger": _ident_deco, "state_trigger": _ident_deco, "service": _ident_deco, "task": None, "pyscript": None}
     old = {k: getattr(builtins, k, None) for k in shim}
     for k, v in shim.items():
         setattr(builtins, k, v)
@@ -381,6 +435,18 @@ def run_cpython(root, src, order, plan):
             mods[fid] = m
         dumps.append(dump())
         for fid, i in plan:
+            if fid in ("@state", "@event"):
+                nrec = len(recs)
+                # the expression was written in the file that defines the trigger: it reads that file's globals
+                for f2 in order:
+                    m2 = sys.modules.get(FILES[f2][1])
+                    fn = getattr(m2, "st_trig" if fid == "@state" else "ev_trig", None) if m2 is not None and f2 in exprtrig else None
+                    if fn is not None and i > vars(m2)["LIMIT"]:
+                        fn()
+                runs = sorted((info["who"], info["kind"], json.dumps(info["seen"])) for tag, info in recs[nrec:] if tag == "exprtrig")
+                entries.append((str(fid) + str(i), runs))
+                dumps.append(dump())
+                continue
             res = getattr(sys.modules[FILES[fid][1]], f"entry_{i}")()
             entries.append((fid + str(i), canon(res)))
             dumps.append(dump())
@@ -401,7 +467,7 @@ def run_cpython(root, src, order, plan):
                 setattr(builtins, k, v)
         sys.dont_write_bytecode = old_dwb
         importlib.invalidate_caches()
-    loads = [info["name"] for tag, info in recs if tag == "load"]
+    loads = [(info["name"], info.get("file")) for tag, info in recs if tag == "load"]
     return dumps, loads, entries, err
 
 
@@ -451,6 +517,9 @@ def run_case(case):
         e = g.env[f]
         todo += list(e["mods"].values()) + [m for m, _ in e["fns"].values()] + list(e["star"])
     plan = [(fid, i) for fid in src for i in range(len(g.entries[fid])) if fid in reach or fid == "jup"]
+    if g.exprtrig:
+        vals = rng.sample([5, 15, 25, 35, 45, 55, 65, 150, 350, 1000], rng.randint(2, 5))
+        plan += [("@state", v) for v in vals[: len(vals) // 2 + 1]] + [("@event", v) for v in vals[len(vals) // 2 :]]
     rng.shuffle(plan)
     # entries of files that are never imported cannot be reached in either system: drop them
     loaders = [f for f in LOADERS if f in src]
@@ -500,6 +569,18 @@ def run_case(case):
         loaded = {FILES[f][2] for f in src if GlobalContextMgr.get(FILES[f][2]) is not None}
         state["loaded"] = loaded
         for fid, i in plan:
+            if fid in ("@state", "@event"):
+                n0 = len(w.rec)
+                if fid == "@state":
+                    w.set_state("pyscript.c11v", str(i))
+                else:
+                    w.fire("c11ev", {"lim": i})
+                await w.settle()
+                runs = sorted((r["who"], r["kind"], json.dumps(r["seen"])) for r in w.rec[n0:] if r["tag"] == "exprtrig")
+                obs["expression_trigger_runs"] += len(runs)
+                state["entries"].append(runs)
+                state["dumps"].append(dump())
+                continue
             if GlobalContextMgr.get(FILES[fid][2]) is None:
                 state["entries"].append(None)
                 state["dumps"].append(dump())
@@ -525,7 +606,10 @@ def run_case(case):
             obs["entries_run"] += 1
             state["dumps"].append(dump())
 
-    w, _ = run_world(main, files=files, config={"apps": {"ap1": {}, "ap2": {}}, "allow_all_imports": False}, legacy=case["legacy"], keep=True)
+    def pre(w):
+        w.hass.states.async_set("pyscript.c11v", "0")
+
+    w, _ = run_world(main, files=files, config={"apps": {"ap1": {}, "ap2": {}}, "allow_all_imports": False}, legacy=case["legacy"], pre_setup=pre, keep=True)
     # CPython on the same tree (a fresh copy: the world's folder is gone)
     import shutil
     import tempfile
@@ -540,13 +624,13 @@ def run_case(case):
             with open(p, "w", encoding="utf-8") as f:
                 f.write(text)
         # only entries of files CPython has loaded as well can be called: files nobody imports are skipped on both sides
-        reachable_plan = [(fid, i) for fid, i in plan if FILES[fid][2] in state.get("loaded", ())]
-        cdumps, cloads, centries, cerr = run_cpython(root, src, order, reachable_plan)
+        reachable_plan = [(fid, i) for fid, i in plan if fid in ("@state", "@event") or FILES[fid][2] in state.get("loaded", ())]
+        cdumps, cloads, centries, cerr = run_cpython(root, src, order, reachable_plan, g.exprtrig)
     finally:
         shutil.rmtree(root, ignore_errors=True)
     if cerr:
         return {"verdict": "inconclusive", "why": "generated program fails on CPython: " + cerr[:300]}
-    ploads = [r["name"] for r in w.rec if r["tag"] == "load"]
+    ploads = [(r["name"], r.get("file")) for r in w.rec if r["tag"] == "load"]
     errs = w.logs(level="ERROR")
     if state.get("jup_exc"):
         viol.append({"mech": "exception_in_session_context", "msg": state["jup_exc"][:500]})
@@ -554,11 +638,13 @@ def run_case(case):
         viol.append({"mech": "error_logged", "msg": str([e["msg"][:300] for e in errs[:2]])})
     obs["module_singleton_checks"] += len(cloads)
     if not viol and ploads != cloads:
-        dup = [n for n in set(ploads) if ploads.count(n) > 1]
-        viol.append({"mech": "module_executed_more_than_once" if dup else "load_sequence_differs", "msg": f"pyscript executed {ploads}, CPython {cloads}"})
+        pf = [f for _, f in ploads]
+        dup = sorted({f for f in pf if pf.count(f) > 1})
+        viol.append({"mech": "module_file_loaded_as_two_instances" if dup else "load_sequence_differs", "msg": f"files executed twice {dup}; pyscript executed {ploads}, CPython {cloads}"})
     # dumps: pyscript has one per plan item (skipped items repeat), CPython one per reachable item
-    pd = [state["dumps"][0]] + [d for (fid, i), d in zip(plan, state["dumps"][1:]) if FILES[fid][2] in state.get("loaded", ())]
-    pe = [e for (fid, i), e in zip(plan, state["entries"]) if FILES[fid][2] in state.get("loaded", ())]
+    keep = [fid in ("@state", "@event") or FILES[fid][2] in state.get("loaded", ()) for fid, i in plan]
+    pd = [state["dumps"][0]] + [d for k, d in zip(keep, state["dumps"][1:]) if k]
+    pe = [e for k, e in zip(keep, state["entries"]) if k]
     if not viol:
         for idx, (a, b) in enumerate(zip(pd, cdumps)):
             obs["global_tables_compared"] += len(b)
@@ -582,6 +668,11 @@ def run_case(case):
             viol.append({"mech": "entry_count_differs", "msg": f"{len(pd)} vs {len(cdumps)}"})
     if not viol:
         for (who, exp), got in zip(centries, pe):
+            if who.startswith("@"):
+                if [list(x) for x in got] != [list(x) for x in exp]:
+                    viol.append({"mech": "expression_trigger_runs_differ", "msg": f"step {who}: pyscript ran {got}, expected (expression evaluated in the defining file's globals) {exp}"})
+                    break
+                continue
             if json.loads(json.dumps(got)) != json.loads(json.dumps(sanitize_like(exp))):
                 viol.append({"mech": "entry_result_differs", "msg": f"entry {who}: pyscript {got} CPython {exp}"})
                 break
